@@ -779,9 +779,6 @@ class EAttribute(EStructuralFeature):
         self.iD = iD
         self.default_value = default_value
         self.defaultValueLiteral = defaultValueLiteral
-        if default_value is None and isinstance(eType, EDataType) \
-                and not eType.type_as_factory:
-            self.default_value = eType.default_value
 
     def get_default_value(self):
         etype = self._eType
